@@ -86,6 +86,39 @@ def run(pid, tier, seed, replay):
         return rc
     rng = random.Random(13000 + seed)
     quick = tier == "quick"
+    lrng = random.Random(13500 + seed)
+    # triggers bound onto another object are the machine's entry points for as long as THEY live: a factory may return only
+    # the object it bound them to (no trace here: nothing else is allowed to hold the machine)
+    import gc
+    import weakref
+    nlife = 0
+    for _ in range(60 if quick else 600):
+        d = gen.rand_def(lrng, provs=("sm",), dense=0.0, guards=False, validators=False, styles=False, nstates=lrng.randint(2, 4))
+        harness.normalize_def(d)
+        b = harness.Built(harness.Recorder({"classes": [d]}), d)
+        first = next((t for t in d["trans"] if t["src"] == d["initial"]), None)
+        if first is None:
+            continue
+        holder = type("Holder", (), {})()
+        sm = b.cls()
+        ref = weakref.ref(sm)
+        sm.bind_events_to(holder)
+        del sm
+        gc.collect()
+        nlife += 1
+        try:
+            getattr(holder, first["evs"][0])()
+            alive = ref()
+            ok = alive is not None and alive.current_state.id in {t["tgt"] for t in d["trans"]
+                                                                    if t["src"] == d["initial"] and first["evs"][0] in t["evs"]}
+            why = "" if ok else f"machine alive={alive is not None}, state {getattr(getattr(alive, 'current_state', None), 'id', None)}"
+        except Exception as e:  # noqa: BLE001
+            ok, why = False, f"{type(e).__name__}: {str(e)[:80]}"
+        if not ok:
+            chk.report({"kind": "bound_trigger_outlives_machine"},
+                       f"a trigger bound onto another object stopped working once nothing else referred to the machine: {why}",
+                       {"definition": d, "event": first["evs"][0]})
+    chk.coverage["machines_reachable_only_through_bound_triggers"] = nlife
     fam = [gen.family_member(rng, nstates=3, dense=0.2, guards=True, validators=False, nested=False, max_cbs=3)
            for _ in range(4 if quick else 25)]
     for m in fam:
@@ -121,38 +154,6 @@ def run(pid, tier, seed, replay):
     for scn in scns:
         pass
     chk.coverage["attribute_invocations_seen"] = len(spied)
-    # triggers bound onto another object are the machine's entry points for as long as THEY live: a factory may return only
-    # the object it bound them to (no trace here: nothing else is allowed to hold the machine)
-    import gc
-    import weakref
-    nlife = 0
-    for _ in range(60 if quick else 600):
-        d = gen.rand_def(rng, provs=("sm",), dense=0.0, guards=False, validators=False, styles=False, nstates=rng.randint(2, 4))
-        harness.normalize_def(d)
-        b = harness.Built(harness.Recorder({"classes": [d]}), d)
-        first = next((t for t in d["trans"] if t["src"] == d["initial"]), None)
-        if first is None:
-            continue
-        holder = type("Holder", (), {})()
-        sm = b.cls()
-        ref = weakref.ref(sm)
-        sm.bind_events_to(holder)
-        del sm
-        gc.collect()
-        nlife += 1
-        try:
-            getattr(holder, first["evs"][0])()
-            alive = ref()
-            ok = alive is not None and alive.current_state.id in {t["tgt"] for t in d["trans"]
-                                                                    if t["src"] == d["initial"] and first["evs"][0] in t["evs"]}
-            why = "" if ok else f"machine alive={alive is not None}, state {getattr(getattr(alive, 'current_state', None), 'id', None)}"
-        except Exception as e:  # noqa: BLE001
-            ok, why = False, f"{type(e).__name__}: {str(e)[:80]}"
-        if not ok:
-            chk.report({"kind": "bound_trigger_outlives_machine"},
-                       f"a trigger bound onto another object stopped working once nothing else referred to the machine: {why}",
-                       {"definition": d, "event": first["evs"][0]})
-    chk.coverage["machines_reachable_only_through_bound_triggers"] = nlife
     chk.coverage["rule"] = ("histories mixing send / event method / events item / allowed_events item / bind_events_to / MachineMixin "
                             "triggers; unknown names: dir(sm) at run time (index drawn at random, ~170 names), state ids, dunders, "
                             "odd strings; both engines")
